@@ -101,7 +101,9 @@ func (t *Tree) feedLeaf(leaf validator, jsonLex lexeme.LexEvent, indexOfLeaf int
 	if done { // validation of node completed
 		parent := leaf.parent()
 		leaf.setParent(nil) // remove the pointer to simplify garbage collection in the future
-		if parent == nil {
+		if parent == nil || t.hasLeaf(parent) {
+			// When several alternatives (or / type union) accepted the same value,
+			// they share one parent: it must be fed the following events once.
 			delete(t.leaves, indexOfLeaf)
 		} else {
 			t.leaves[indexOfLeaf] = parent // step back to parent
@@ -121,6 +123,15 @@ func (t *Tree) feedLeaf(leaf validator, jsonLex lexeme.LexEvent, indexOfLeaf int
 	}
 
 	return nil
+}
+
+func (t *Tree) hasLeaf(v validator) bool {
+	for _, l := range t.leaves {
+		if l == v {
+			return true
+		}
+	}
+	return false
 }
 
 func (t *Tree) addLeaf(v validator) {
